@@ -30,6 +30,7 @@ C_LIB_PASSTHRU = {'memcmp', 'memcpy', 'memmove', 'memset', 'strlen',
                   '__builtin_memcmp', '__builtin_memcpy', '__builtin_strlen', 'abort'}
 LIFT_NS = ('tao', 'vf')
 # library classes whose (inline, header-defined) member functions are lowered like PEGTL code
+LIFT_STD_FUNCS = ('std::min', 'std::max')
 LIFT_STD_RECORDS = ('std::basic_string_view', 'std::numeric_limits', 'std::char_traits', 'std::initializer_list')
 SIGNED_C = {'char', 'signed char', 'short', 'int', 'long', 'long long', '__int128'}
 
@@ -506,6 +507,8 @@ class LowerBase:
 
     def in_lift(self, d):
         if self.ast.in_namespace(d, LIFT_NS):
+            return True
+        if d.get('kind') == 'FunctionDecl' and self.ast.qualname(d) in LIFT_STD_FUNCS:
             return True
         rec = self.ast.enclosing_record(d)
         if rec is not None and (self.is_lambda(rec) or self.ast.qualname(rec) in LIFT_STD_RECORDS):
